@@ -1443,6 +1443,14 @@ class Interp:
         return set(r)
 
     def e_DictComp(self, node, frame):
+        first = []
+        if len(node.generators) == 1:
+            src0 = self.eval(node.generators[0].iter, frame)
+            if type(src0).__name__ in ("GDict", "GKeys"):
+                from . import gsets
+
+                return gsets.dictcomp(self, node, frame, src0)
+            first = [src0]
         out = {}
         inner = Frame(frame.fn, {}, frame.node, frame.qn)
         inner.globals, inner.cells, inner.parent = frame.globals, frame.cells, frame
@@ -1455,7 +1463,7 @@ class Interp:
                 out[k] = self.eval(node.value, inner)
                 return
             g = node.generators[gi]
-            for x in self.iterate(self.eval(g.iter, inner)):
+            for x in self.iterate(first.pop() if (gi == 0 and first) else self.eval(g.iter, inner)):
                 self.assign(g.target, x, inner)
                 if all(self.truth(self.eval(c, inner)) for c in g.ifs):
                     rec(gi + 1)
